@@ -1,5 +1,5 @@
 #!/usr/bin/env python3
-"""usage: seedrun.py [--round N] [--ids C01-g,C02-h] [--also C09,C11]
+"""usage: seedrun.py [--round N] [--ids C01-g,C02-h] [--also C09,C11]   (round 1 = the changes without a round field)
 Runs the quick check of the property each saved seeded change breaks (seeded/<id>/patch.diff applied to /repo's
 working tree, always restored afterwards) and records the outcome in seeded/<id>/meta.json under "last_run":
 {check id: {"verdict": "VIOLATED"|"VIOLATED no-failing-input-found"|"ok"|..., "wall_s": seconds}}.
@@ -18,7 +18,7 @@ def main():
     ids = set(a.ids.split(',')) if a.ids else None
     for m in metas:
         d = json.load(open(m))
-        if a.round is not None and d.get('round') != a.round:
+        if a.round is not None and (d.get('round') or 1) != a.round:
             continue
         if ids is not None and d['id'] not in ids:
             continue
